@@ -8,7 +8,7 @@ from pathlib import Path
 from mc.core import UnitResult
 
 ID = "C18"
-PARTS = ['bool', 'disable_all', 'error-case', 'int', 'list']      # outcome classes every run must produce (guards against a part of the exploration silently not running)
+PARTS = ['bool', 'disable_all', 'disable_all_off', 'error-case', 'int', 'list', 'cli-assembly']      # outcome classes every run must produce (guards against a part of the exploration silently not running)
 RULE = ("state = a stack of 1-3 config files chained by extend_config (written first or last in the table), each setting or not, per scope (top, override a, override a.b), "
         "one option (boolean error code / integer / list / disable_all + explicit enable), plus a command-line instance, queried for modules (), a, a.b, a.b.c, x; every "
         "combination is enumerated; real: Options.from_option_list(cmdline, main file).for_module(m).get_value_for / is_error_code_enabled; oracle: the documented precedence "
@@ -91,6 +91,9 @@ def configs(tier):
                     continue
                 for en in itertools.product(range(3), repeat=nf * 2):
                     out.append(("disable_all", nf, da + en, False, True))
+                    if any(en):
+                        # the same with a code that is off by default (missing_return_annotation): a disable_all section must still shadow an enable below it
+                        out.append(("disable_all_off", nf, da + en, False, True))
     return out
 
 
@@ -103,12 +106,13 @@ def bounds(tier):
 
 def units(tier):
     n = len(configs(tier))
-    return [("layer", tier, i, min(n, i + CH)) for i in range(0, n, CH)] + [("errors", tier, 0, 0)]
+    return [("layer", tier, i, min(n, i + CH)) for i in range(0, n, CH)] + [("errors", tier, 0, 0), ("cli", tier, 0, 0)]
 
 
 def _build(kind, nf, assign):
     files = [dict() for _ in range(nf)]
-    if kind == "disable_all":
+    if kind in ("disable_all", "disable_all_off"):
+        code = "undefined_name" if kind == "disable_all" else "missing_return_annotation"
         da, en = assign[:nf * 2], assign[nf * 2:]
         for i in range(nf):
             for j, sc in enumerate(SCOPES[:2]):
@@ -116,7 +120,7 @@ def _build(kind, nf, assign):
                     files[i].setdefault(sc, {})["disable_all"] = True
                 e = en[i * 2 + j]
                 if e:
-                    files[i].setdefault(sc, {})["undefined_name"] = (e == 1)
+                    files[i].setdefault(sc, {})[code] = (e == 1)
         return files
     for i in range(nf):
         for j, sc in enumerate(SCOPES):
@@ -178,7 +182,8 @@ def _layer(res, tier, lo, hi):
                     src = expected_sources(files, m, "undefined_name")
                     exp = False if cmd else (files[src[0][0]][src[0][1]]["undefined_name"] if src else True)
                 else:
-                    got = (om.is_error_code_enabled(ErrorCode.undefined_name), om.is_error_code_enabled(ErrorCode.undefined_attribute))
+                    code1 = "undefined_name" if kind == "disable_all" else "missing_return_annotation"
+                    got = (om.is_error_code_enabled(getattr(ErrorCode, code1)), om.is_error_code_enabled(ErrorCode.undefined_attribute))
                     # each (file, scope) section: explicit setting of undefined_name wins inside the section; disable_all turns every code that the same
                     # section does not enable off; sections are ordered by the ordinary precedence
                     def lookup(code):
@@ -190,8 +195,8 @@ def _layer(res, tier, lo, hi):
                                         return sec[code]
                                     if sec.get("disable_all"):
                                         return False
-                        return True
-                    exp = (lookup("undefined_name"), lookup("undefined_attribute"))
+                        return code != "missing_return_annotation"      # the default: on, except for the off-by-default code
+                    exp = (lookup(code1), lookup("undefined_attribute"))
                 res.outcomes["%s:%s" % (kind, "agree" if got == exp else "differ")] += 1
                 if got != exp:
                     winner = ""
@@ -199,7 +204,7 @@ def _layer(res, tier, lo, hi):
                         # which source did the implementation pick?
                         picked = [(i, sc) for i, f in enumerate(files) for sc in f if (kind == "int" and f[sc].get("maximum_positional_args") == got)]
                         winner = "f%d/%s" % (picked[0][0], ".".join(picked[0][1]) or "top") if picked and kind == "int" else ""
-                    srcs = ">".join("f%d/%s" % (i, ".".join(sc) or "top") for i, sc in (src if kind != "disable_all" else []))
+                    srcs = ">".join("f%d/%s" % (i, ".".join(sc) or "top") for i, sc in (src if not kind.startswith("disable_all") else []))
                     res.violation({"kind": "wrong-effective-value", "opt": kind, "nfiles": str(nf), "extend_first": str(int(ef)), "cmd": str(int(cmd)),
                                    "expected_order": srcs, "picked": winner}, dict(case, module=list(m)),
                                   "%s for module %s: expected %r (precedence %s) but got %r; files=%s extend_config %s"
@@ -269,9 +274,50 @@ def _errors(res, tier, only=None):
             shutil.rmtree(d, ignore_errors=True)
 
 
+def _cli_assembly(res, only=None):
+    """the command-line layer as the real entry point assembles it (NameCheckVisitor.prepare_constructor_kwargs): for every registered boolean / integer
+    option that has a command-line flag, a config file sets one value and the command line passes the other one, truthy and falsy: the command line wins"""
+    import contextlib
+    import io
+    from pyanalyze.name_check_visitor import NameCheckVisitor
+    from pyanalyze.options import BooleanOption, ConfigOption, IntegerOption
+    from pyanalyze.error_code import ErrorCode
+    codes = {c.name for c in ErrorCode}
+    names = sorted(n for n, oc in ConfigOption.registry.items() if oc.should_create_command_line_option and n not in codes and issubclass(oc, (BooleanOption, IntegerOption)))
+    for name in names:
+        oc = ConfigOption.registry[name]
+        pairs = [(True, False), (False, True)] if issubclass(oc, BooleanOption) else [(7, 0), (0, 7), (3, 5)]
+        for cfg_v, cli_v in pairs:
+            if only is not None and [name, cli_v] != only:
+                continue
+            d = Path(tempfile.mkdtemp(prefix="verif-c18c-", dir="/dev/shm"))
+            try:
+                (d / "c.toml").write_text("[tool.pyanalyze]\n%s = %s\n" % (name, _toml_value(cfg_v)))
+                res.states += 1
+                res.transitions += 1
+                res.validated += 1
+                case = {"mode": "cli", "name": name, "cli": cli_v, "order": 2 * 10 ** 9}
+                try:
+                    with contextlib.redirect_stdout(io.StringIO()), contextlib.redirect_stderr(io.StringIO()):
+                        kw = NameCheckVisitor.prepare_constructor_kwargs({"config_file": d / "c.toml", name: cli_v})
+                    got = kw["checker"].options.get_value_for(oc)
+                except Exception as e:
+                    res.violation({"kind": "cli-assembly-raises", "exc": type(e).__name__, "option_type": oc.__mro__[1].__name__}, case, "prepare_constructor_kwargs raised %r for %s=%r over a config file setting %r" % (e, name, cli_v, cfg_v))
+                    continue
+                res.outcomes["cli-assembly:%s" % ("command-line-wins" if got == cli_v else "differs")] += 1
+                if got != cli_v:
+                    res.violation({"kind": "command-line-value-ignored", "option_type": oc.__mro__[1].__name__, "falsy": str(int(not cli_v))}, case,
+                                  "%s: the config file sets %r, the command line passes %r, the effective value is %r" % (name, cfg_v, cli_v, got))
+            finally:
+                shutil.rmtree(d, ignore_errors=True)
+
+
 def run_unit(unit):
     kind, tier, lo, hi = unit
     res = UnitResult()
+    if kind == "cli":
+        _cli_assembly(res)
+        return res
     if kind == "layer":
         _layer(res, tier, lo, hi)
     else:
@@ -281,6 +327,9 @@ def run_unit(unit):
 
 def replay(case):
     res = UnitResult()
+    if case["mode"] == "cli":
+        _cli_assembly(res, only=[case["name"], case["cli"]])
+        return list(res.viol.values())
     if case["mode"] == "errors":
         _errors(res, "quick", only=case["name"])
     else:
